@@ -81,6 +81,8 @@ def execute(mod, case, log_on=False):
             sid = simid.install(id_mode)
             from . import simempty
             simempty.install()            # uninitialised memory behind a seam
+            from . import simclock
+            simclock.install(sched, case.get("sched_seed", 0))      # clocks behind a seam (none is read today)
             # NumPy's floating-point error state is process-global state other code moves (np.seterr / np.errstate):
             # "ignore" and "warn" (the default) are both legal worlds; the mode is part of the case
             import numpy as _np
@@ -107,6 +109,8 @@ def execute(mod, case, log_on=False):
             # the property module works on a private copy: whatever the code under test does to data handed to it,
             # the case (= the replay file) stays what was generated, so a re-run is the same experiment
             stats = mod.run_case(copy.deepcopy(case), sched)
+            if simclock.STATS["reads"]:
+                sched.count("clock_reads_by_persim", simclock.STATS["reads"])
             if simempty.STATS["empty_calls"]:
                 sched.count("np_empty_calls_by_persim", simempty.STATS["empty_calls"])
             if sid.calls:
